@@ -38,7 +38,18 @@ def run(c):
     # serialise pass can drift apart
     cases2, dis2, stats2 = rt.run_rt(c, oracle, n, k, known_classifier=cls, label='H-runtime (padded arrays)',
                                      profile='rt-pad', seed_base=500)
-    rt.decide(c, ob, dis + dis2)
+    # operation trees (where every write lands relative to `at`) of many more layouts, nothing compiled; a layout
+    # that differs from the model is built and run against the guard page
+    from checks import lycommon as ly
+    bad = ly.op_tree_sweep(c, 300 if c.tier == 'thorough' else 60, seed_base=1100)
+    if bad and not c.violations:
+        cs, (qq, exp, got, lab) = bad
+        if not ly.hunt_layout_failure(c, cs, 'C02', nhist=40, oracle=oracle):
+            c.violation({'property': 'C02', 'kind': f'correspondence broken ({lab}): the operation tree differs from the Lean '
+                         'builder, and no store outside the packet buffer was found', 'obligation': f'H-layout {lab} stream',
+                         'config_yaml': cs.text, 'query': qq, 'implementation': exp, 'model': got}, found_input=False)
+    rt.decide(c, ob, dis + dis2, oracle=oracle, known_classifier=cls, gen_hist=hrt.gen_history,
+              profiles=('rt-pad', 'rt', 'layout-pad', 'layout'))
     if c.tier == 'thorough' and ob['ok']:
         ok, log = c.leanchecker(['BVM.Props.C02'])
         if not ok:
